@@ -40,7 +40,18 @@ def vobjOf (o : Nat) : Var → Nat
   | .file => o
   | _ => 0
 
-def mk (sk : List Sk) (o : Nat) (lab : Var → Upd) : Call Upd := Call.ofSk sk (lobjOf o) (vobjOf o) lab
+/-- library callee the outcome model runs: the child's value constructor (under the parent lock; it takes the global lock in
+the multiprocess store).  `describe()` of the harness's collectors and the children's samples are modelled by the program
+itself (`col` = registry part + explicit `get`s), so they stay markers here. -/
+def drvCb (bk : Backend) : Callee → List CMicro
+  | .childCtor => libCb bk .childCtor
+  | _ => []
+
+def mkB (bk : Backend) (sk : List Sk) (o : Nat) (lab : Var → Upd) : Call Upd :=
+  { code0 := compile (canon 0) (drvCb bk) sk, bl0 := blindSet bk sk, lobj := lobjOf o, vobj := vobjOf o,
+    lab := fun x => lab x.1 }
+
+def mk (sk : List Sk) (o : Nat) (lab : Var → Upd) : Call Upd := mkB .mutex sk o lab
 
 def only (x : Var) (u : Upd) : Var → Upd := fun y => if y = x then u else .keep
 
@@ -122,10 +133,10 @@ def parseOp (cfg : Cfg) (tid idx : Nat) (f : String) : Option (List Prim) :=
     pure [getPrim cfg o s!"G{o}"]
   | ["lab", k] => do
     let k ← k.toNat?
-    pure [.lab (mk MetricWrapperBase_labels 0 (only .metrics (.ensure k cid))) k]
+    pure [.lab (mkB cfg.bk MetricWrapperBase_labels (10 + k) (only .metrics (.ensure k cid))) k]
   | ["linc", k, a] => do
     let k ← k.toNat?; let a ← a.toNat?
-    pure [.lab (mk MetricWrapperBase_labels 0 (only .metrics (.ensure k cid))) k,
+    pure [.lab (mkB cfg.bk MetricWrapperBase_labels (10 + k) (only .metrics (.ensure k cid))) k,
           .silent (mk (incSk cfg.bk) (10 + k) (only .value (.add a)))]
   | ["rem", k] => do
     let k ← k.toNat?
@@ -258,7 +269,7 @@ def isLocal (m : Micro ILock ICell Upd) : Bool :=
 def storedCells (progs : List Code) : List ICell :=
   (progs.flatten.foldl (fun acc m =>
     match m with
-    | .store x _ => if acc.contains x then acc else x :: acc
+    | .store x u => if u = .keep || acc.contains x then acc else x :: acc
     | _ => acc) []).reverse
 
 def finalStr (cells : List ICell) (s : S) : String :=
